@@ -145,7 +145,15 @@ class VerifyMixin(object):
         st = self._post_state(c, o, old)
         line = None
         for idx, text in enumerate(c.ensures):
-            self.oblige(st, "post", "E%d" % idx, text, self.spec_bool(text, st), line)
+            cond = c.kf.get("E%d" % idx)
+            if cond is None:
+                self.oblige(st, "post", "E%d" % idx, text, self.spec_bool(text, st), line)
+            else:
+                # known finding: the clause is split on the finding's condition (evaluated in the pre-state)
+                k = self.spec_bool(cond, old)
+                self.oblige(st.copy().assume(z3.Not(k)), "post", "E%d" % idx, text + "   [outside the known finding: not (%s)]" % cond,
+                            self.spec_bool(text, st), line)
+                self.oblige(st.copy().assume(k), "post", "E%d[kf]" % idx, text + "   [known finding: %s]" % cond, self.spec_bool(text, st), line)
         for ename, cond in c.raises.items():
             if cond is not None and not cond.startswith("?"):
                 self.oblige(st, "raises-iff", ename, "not (%s)" % cond, z3.Not(self.spec_bool(cond, old)), line)
